@@ -1,6 +1,8 @@
 import DadiVerif.Lemmas.Het
 import DadiVerif.Generated.Phi1D
 import DadiVerif.Lemmas.Theory
+import DadiVerif.Lemmas.Theory2
+import DadiVerif.Generated.Phi1DReal
 /-!
 # C01 — one-population scheme: exact discrete moment laws (the provable core of the convergence property)
 
@@ -154,6 +156,68 @@ theorem C01_theory_snm_sfs (n i : ℕ) (hi : 1 ≤ i) (hin : i ≤ n) (nu θ0 β
     (`C01_het_limit`), so the scheme's stationary heterozygosity converges to theory as the first grid point goes to 0 -/
 theorem C01_theory_heterozygosity (θ0 κ : ℝ) : ∫ x in (0:ℝ)..1, x * (1 - x) * (θ0 / (κ * x)) = θ0 / (2 * κ) :=
   theory_heterozygosity θ0 κ
+
+/-! ### The equilibrium constructors are the stationary solutions of the diffusion (theory over ℝ)
+`Generated/Phi1DReal.lean` holds the transcendental expressions of `phi_1D_genic` and `phi_1D` as the source writes them
+(`exp = Real.exp`); `Lemmas/Theory2.lean` proves, for g(x) = x(1−x)φ(x), that the probability flux −½g′ + (Q′/2)g of the
+Wright–Fisher diffusion with genic selection / dominance is constant in x with g(0) = 1 (mutation influx), g(1) = 0 (absorption). -/
+section TheoryStationary
+open Theory2 Filter Topology
+
+/-- what the source computes on the interior is g/(x(1−x)) for the closed forms the theory lemmas are about -/
+theorem C01_theory_genic_form (x γ : ℝ) :
+    Phi1DReal.genic_interior x γ = gG γ x / (x * (1 - x))
+    ∧ Phi1DReal.genic_interior_neg x γ = Real.exp (2 * γ * x) / (x * (1 - x))
+    ∧ Phi1DReal.genic_branch_tests = ["gamma<300", "gamma==0", "gamma>-300"] := by
+  refine ⟨?_, ?_, by decide⟩
+  · unfold Phi1DReal.genic_interior gG; ring_nf
+  · unfold Phi1DReal.genic_interior_neg; ring_nf
+
+/-- `phi_1D` (dominance): the integrand is e^{−Q}, the prefactor e^{Q}, the γ ≥ 0 variant is the same quotient with the prefactor
+    pulled inside the integral, the quadratures run over [0,1] and [x,1], the interior is divided by x(1−x), 1/int0 is stored at 1 -/
+theorem C01_theory_dom_form (γ h x ξ q : ℝ) :
+    Phi1DReal.dom_integrand γ h 0 ξ = Real.exp (-Q γ h ξ)
+    ∧ Phi1DReal.dom_prefactor_exp γ h x = Real.exp (Q γ h x)
+    ∧ Phi1DReal.dom_integrand_pos γ h ξ q = Real.exp (Q γ h q) * Real.exp (-Q γ h ξ)
+    ∧ Phi1DReal.dom_pos_is_ratio = true
+    ∧ Phi1DReal.dom_shape.all (·.2) = true := by
+  refine ⟨?_, ?_, ?_, rfl, by decide⟩
+  · unfold Phi1DReal.dom_integrand Q; ring_nf
+  · unfold Phi1DReal.dom_prefactor_exp Q; ring_nf
+  · unfold Phi1DReal.dom_integrand_pos Q; rw [← Real.exp_add]; congr 1; ring
+
+/-- genic selection: constant flux γ/(1−e^{−2γ}), boundary values, and the second-order (stationary Kolmogorov) form -/
+theorem C01_theory_genic_stationary : type_of% @theory_genic_stationary := @theory_genic_stationary
+
+/-- any dominance h and any γ: gH = e^{Q}·∫ₓ¹e^{−Q}/∫₀¹e^{−Q} has derivative Q′·gH − 1/int0, constant flux 1/(2·int0), gH(0)=1, gH(1)=0 -/
+theorem C01_theory_general_stationary : type_of% @theory_general_stationary := @theory_general_stationary
+
+/-- …restated for φ = gH/(x(1−x)) and the drift term M(x) = 2γ(h+(1−2h)x)x(1−x) at interior points -/
+theorem C01_theory_general_stationary_phi : type_of% @theory_general_stationary_phi := @theory_general_stationary_phi
+
+/-- h = ½ of the general formula is the genic closed form (the dispatch `if h == 0.5: return phi_1D_genic(…)` changes nothing) -/
+theorem C01_theory_genic_is_general_half : type_of% @theory_genic_is_general_half := @theory_genic_is_general_half
+
+/-- the values stored at x = 1 are the limits of the interior formulas: 1/int0 in general, and the `limit` expression of
+    `phi_1D_genic` (as the source writes it) for h = ½ -/
+theorem C01_theory_limit_at_one (γ h : ℝ) :
+    Tendsto (fun x => gH γ h x / (x * (1 - x))) (𝓝[<] 1) (𝓝 (1 / I γ h 0))
+    ∧ (γ ≠ 0 → Tendsto (fun x => Phi1DReal.genic_interior x γ) (𝓝[<] 1) (𝓝 (Phi1DReal.genic_limit γ)))
+    ∧ (γ ≠ 0 → Phi1DReal.genic_limit γ = 1 / I γ (1 / 2) 0) := by
+  obtain ⟨h1, _, h3, h4⟩ := theory_limit_at_one γ h
+  refine ⟨h1, fun hγ => ?_, fun hγ => ?_⟩
+  · have e : (fun x => Phi1DReal.genic_interior x γ) = fun x => gG γ x / (x * (1 - x)) := by
+      funext x; exact (C01_theory_genic_form x γ).1
+    rw [e]; exact h4 hγ
+  · rw [h3 hγ]; rfl
+
+/-- continuity across γ = 0: the genic closed form tends to the neutral one, g → 1 − x (φ → 1/x), for every x -/
+theorem C01_theory_neutral_limit : type_of% @theory_neutral_limit := @theory_neutral_limit
+
+/-- the overflow branch (γ ≤ −300 uses e^{2γx}): it differs from the exact closed form by at most e^{2γ} ≤ e^{−600} on [0,1] -/
+theorem C01_theory_genic_large_negative : type_of% @theory_genic_large_negative := @theory_genic_large_negative
+
+end TheoryStationary
 
 /-- non-vacuity: a 4-point grid from 0 to 1 satisfies the hypotheses of `C01_het_step` -/
 example : GridOk #[0, 1/4, 1/2, 1] ∧ (#[0, 1/4, 1/2, (1:ℚ)]).getD 0 0 = 0 ∧ (#[0, 1/4, 1/2, (1:ℚ)]).getD 3 0 = 1 := by
